@@ -23,6 +23,17 @@ OnlyNoPrune == {FALSE}
 FDirect == {"direct"}
 FBatch == {"direct", "batch"}
 
+\* depth bound as a guard of the next-state relation (a state constraint would
+\* generate and then throw away the successors of the deepest level)
+Bounded(n) == Init /\ [][TLCGet("level") < n /\ Next]_vars
+SpecL3 == Bounded(3)
+SpecL4 == Bounded(4)
+SpecL5 == Bounded(5)
+SpecL6 == Bounded(6)
+SpecL7 == Bounded(7)
+SpecL8 == Bounded(8)
+SpecL9 == Bounded(9)
+SpecL10 == Bounded(10)
 Level(n) == TLCGet("level") <= n
 Lvl4 == Level(4)
 Lvl5 == Level(5)
